@@ -1053,6 +1053,7 @@ class LineTracer:
         self.fault = dict(fault)
         self.fault_who = who
         self.fault_at = self.steps + int(fault["line"])
+        self.func_lines = 0     # for faults aimed at a function: line events seen inside that function so far
 
     def global_trace(self, frame, event, arg):
         if frame.f_code.co_filename.startswith(REPO_CIJ):
@@ -1063,7 +1064,16 @@ class LineTracer:
         if event != "line":
             return self.local_trace
         self.steps += 1
-        if self.fault is not None and self.steps >= self.fault_at:
+        if self.fault is not None and self.fault.get("func"):
+            # aimed fault: fires at the n-th line event executed inside the named function (wherever in the operation that is)
+            if frame.f_code.co_name == self.fault["func"][1] and frame.f_code.co_filename.endswith(self.fault["func"][0]):
+                self.func_lines += 1
+                hit = self.func_lines >= int(self.fault["line"])
+            else:
+                hit = False
+        else:
+            hit = self.fault is not None and self.steps >= self.fault_at
+        if hit:
             f, self.fault = self.fault, None
             self.fired_in = self.fault_who
             self.fault_site = f"{frame.f_code.co_filename[len(REPO_CIJ):]}:{frame.f_code.co_name}"
